@@ -346,12 +346,12 @@ func c09Format12(r *run.Run) {
 // byte-level cases: subtables as found in files, assembled by refcmap.
 func c09Bytes(r *run.Run) {
 	r.Explore(explore.Config{Name: "C09.bytes-format4"},
-		"hand-assembled format 4: segments with idRangeOffset != 0 and idDelta in {0, 5, 0xFFFF}, glyphIdArray values incl. 0; direct segments with wrapping delta; the customary final 0xFFFF segment in its usual variants",
+		"hand-assembled format 4: segments with idRangeOffset != 0 and idDelta in {0, 5, 0xFFFF}, glyphIdArray values incl. 0; direct segments with wrapping delta; the customary final 0xFFFF segment in its usual variants and final segments that map 0xFFFF to a glyph (by delta, through the glyphIdArray, as the end of a longer segment)",
 		func(c *explore.Ctx) {
 			delta := explore.Pick(c, "idDelta of array segment", uint16(0), uint16(5), uint16(0xFFFF))
 			vals := [][]uint16{{11, 12, 13}, {11, 0, 13}, {0, 0, 0}, {0xFFFF, 1, 2}}[c.Choose(4, "glyphIdArray")]
 			directDelta := explore.Pick(c, "idDelta of direct segment", uint16(100), uint16(0xFFD0), uint16(0xFFFF-0x40+1))
-			final := c.Choose(3, "final segment")
+			final := c.Choose(7, "final segment")
 			segs := []refcmap.Seg4{
 				{Start: 0x20, End: 0x22, Delta: delta, Glyphs: vals},
 				{Start: 0x40, End: 0x45, Delta: directDelta},
@@ -363,6 +363,14 @@ func c09Bytes(r *run.Run) {
 				segs = append(segs, refcmap.Seg4{Start: 0xFFFF, End: 0xFFFF, Delta: 0})
 			case 2:
 				segs = append(segs, refcmap.Seg4{Start: 0xFFFF, End: 0xFFFF, Delta: 0, Glyphs: []uint16{0}})
+			case 3: // code 0xFFFF mapped to a glyph through the glyphIdArray
+				segs = append(segs, refcmap.Seg4{Start: 0xFFFF, End: 0xFFFF, Delta: 0, Glyphs: []uint16{7}})
+			case 4:
+				segs = append(segs, refcmap.Seg4{Start: 0xFFFF, End: 0xFFFF, Delta: 5, Glyphs: []uint16{7}})
+			case 5: // the final segment starts in front of 0xFFFF
+				segs = append(segs, refcmap.Seg4{Start: 0xFFFE, End: 0xFFFF, Delta: 0, Glyphs: []uint16{8, 9}})
+			case 6: // code 0xFFFF mapped to a glyph by a wrapping delta
+				segs = append(segs, refcmap.Seg4{Start: 0xFFFF, End: 0xFFFF, Delta: 8})
 			}
 			b := refcmap.Assemble4(segs, 0)
 			c.Sample(func() any { return fmt.Sprintf("segments %+v", segs) })
